@@ -1,5 +1,5 @@
 import LexVerif.Props.C13
-import LexVerif.Proof.SepGen8
+import LexVerif.Proof.SepLocal4
 /-!
 # C13 (continued) — `strip_preserves` beyond the all-I+L+T+C class
 
@@ -13,6 +13,12 @@ many-digits path (`Proof.Sep.Rescan`; false for I+T+C, the recorded defect `C13-
   variants on each component —, no base prefix / suffix, leading zeros allowed, STANDARD's required digits, the separator
   is no sign / decimal point / exponent character / digit; `Rescan` for the integer and fraction component;
   `PeekStable` for the integer component).
+* `strip_preserves_all`: **every flag combination on every component, except I+T+C on the integer or the fraction
+  component** (`Proof/SepLocal*.lean`: the skip predicates look at a small neighbourhood only, and replacing a
+  neighbour that is neither digit nor separator by "no neighbour" — what the re-scan of a stored slice sees at its
+  boundary — never turns a skip into a non-skip, except for `is_itc`). The exclusion is necessary:
+  `strip_witness_itc` (Props/C13.lean). I+L+C needs no exclusion for R1 (its defect is R2: a trailing separator is
+  accepted at the end of input; deleting it does not change the number).
 * `strip_preserves_mix`: instance — integer / fraction component without flags or I+L+T+C; the exponent component with
   ANY flag combination.
 -/
@@ -34,6 +40,14 @@ theorem strip_preserves_mix (c : Cfg) (o : POpts) (hG : GenStrip c o) (hM : MixO
     (h : parseFloatSyntax c o false s fv = .ok (.number n cnt)) :
     ∃ n', parseFloatSyntax c o false (nonSep c s) fv = .ok (.number n' (nonSep c s).length) ∧ NumRel c n n' :=
   parseFloatSyntax_strip_mix c o hG hM s hb fv n cnt h
+
+/-- **R1 for every class but I+T+C**: any of the 15 `peek` variants (no flag, I, L, T, I+L, I+T, L+T, I+L+T, and these
+with C) on the integer and fraction component except I+T+C; any of the 15 on the exponent component. -/
+theorem strip_preserves_all (c : Cfg) (o : POpts) (hG : GenStrip c o) (hI : c.skip .integer ≠ .pred .itc)
+    (hF : c.skip .fraction ≠ .pred .itc) (s : List Nat) (hb : ∀ x ∈ s, x < 256) (fv : Bool) (n : Number) (cnt : Nat)
+    (h : parseFloatSyntax c o false s fv = .ok (.number n cnt)) :
+    ∃ n', parseFloatSyntax c o false (nonSep c s) fv = .ok (.number n' (nonSep c s).length) ∧ NumRel c n n' :=
+  parseFloatSyntax_strip_all c o hG hI hF s hb fv n cnt h
 
 /-- `GenStrip` for the concrete formats `cfgOf bits` (radix 10, `_`, STANDARD flags) with the default options -/
 theorem genStrip_cfgOf (bits : Nat) (hreach : ∀ k, (cfgOf bits).skip k ≠ .unreachable)
@@ -74,5 +88,43 @@ example : numIs (parseFloatSyntax cMixA {} false [49,50,46,95,51,95,52,95,95,53,
 example : numIs (parseFloatSyntax cMixA {} false
     [49,50,51,52,53,54,55,56,57,48,49,46,95,50,51,52,53,54,55,56,57,48,95,49,50,51,52,53]) 28
     1234567890123456789 (-8) (some [95,50,51,52,53,54,55,56,57,48,95,49,50,51,52,53]) = true := by decide
+
+/-! ### the uniform classes of the catalogue (`c13_dec_uni_*`, fmtcat_sep.py) are instances -/
+
+/-- uniform format: the same flag letters on integer, fraction and exponent; `f` = bits of (I, L, T, C) -/
+def cUni (i l t cc : Bool) : Cfg :=
+  cfgOf ((if i then 0x7 else 0) + (if l then 0x38 else 0) + (if t then 0x1c0 else 0) + (if cc then 0xe00 else 0))
+
+/-- every uniform class except "C alone" (invalid) is in `GenStrip` -/
+theorem uni_genStrip : ∀ i l t cc : Bool, (i || l || t) = true → GenStrip (cUni i l t cc) {} := by
+  intro i l t cc h
+  cases i <;> cases l <;> cases t <;> cases cc <;> first
+    | (simp at h; done)
+    | exact genStrip_cfgOf _ (by intro k; cases k <;> decide) (by decide)
+
+/-- R1 for the eleven uniform classes I, L, T, I+L, I+T, L+T, I+L+T, I+C, L+C, T+C, I+L+C, L+T+C (and I+L+T+C):
+everything but I+T+C -/
+theorem strip_preserves_uniform (i l t cc : Bool) (h : (i || l || t) = true)
+    (hitc : ¬ (i = true ∧ l = false ∧ t = true ∧ cc = true)) (s : List Nat) (hb : ∀ x ∈ s, x < 256) (fv : Bool)
+    (n : Number) (cnt : Nat) (hp : parseFloatSyntax (cUni i l t cc) {} false s fv = .ok (.number n cnt)) :
+    ∃ n', parseFloatSyntax (cUni i l t cc) {} false (nonSep (cUni i l t cc) s) fv
+        = .ok (.number n' (nonSep (cUni i l t cc) s).length) ∧ NumRel (cUni i l t cc) n n' := by
+  refine strip_preserves_all _ _ (uni_genStrip i l t cc h) ?_ ?_ s hb fv n cnt hp <;>
+  · cases i <;> cases l <;> cases t <;> cases cc <;> first
+      | (simp at h; done)
+      | (exfalso; exact hitc ⟨rfl, rfl, rfl, rfl⟩)
+      | decide
+
+/-- non-vacuity: internal-only (`c13_dec_uni_i`): `1_2.3_4e1_0` is accepted; 21 digits with separators re-scan -/
+example : numIs (parseFloatSyntax (cUni true false false false) {} false [49,95,50,46,51,95,52,101,49,95,48]) 11 1234 8
+    (some [51,95,52]) = true := by decide
+
+example : numIs (parseFloatSyntax (cUni true false false false) {} false
+    [49,95,50,51,52,53,54,55,56,57,48,49,46,50,51,52,53,54,55,56,57,48,95,49,50,51,52,53]) 28
+    1234567890123456789 (-8) (some [50,51,52,53,54,55,56,57,48,95,49,50,51,52,53]) = true := by decide
+
+/-- leading+trailing+consecutive (`c13_dec_uni_ltc`): `__12__.__5__e__3__` -/
+example : numIs (parseFloatSyntax (cUni false true true true) {} false
+    [95,95,49,50,95,95,46,95,95,53,95,95,101,95,95,51,95,95]) 18 125 2 (some [95,95,53,95,95]) = true := by decide
 
 end LexVerif.Props.C13
